@@ -4,6 +4,7 @@ import (
 	"crypto/rand"
 	"errors"
 	"fmt"
+	"strings"
 
 	"github.com/buzzfeed/sso/internal/pkg/aead"
 	"github.com/buzzfeed/sso/internal/pkg/sessions"
@@ -13,7 +14,9 @@ import (
 func init() {
 	workloads["c02-ciphers"] = runC02
 	generators["C02"] = func(r *world.Rng) *Plan {
-		p := &Plan{Workload: "c02-ciphers", P: map[string]int{"ciphers": r.Range(1, 3), "tasks": r.Range(2, 5), "mix": r.Intn(4)}}
+		p := &Plan{Workload: "c02-ciphers", P: map[string]int{"ciphers": r.Range(1, 3), "tasks": r.Range(2, 5), "mix": r.Intn(4),
+			// "all field contents incl. … long group lists": one of the values carries this many groups
+			"big": r.Pick0(0, 0, 0, 40, 160, 420, 1300)}}
 		p.Choices = drawChoices(r, r.Range(30, 200))
 		return p
 	}
@@ -53,6 +56,12 @@ func runC02(p *Plan, res *world.Result) {
 	for i := 0; i < p.P["tasks"]; i++ {
 		ci := i % n
 		orig := sessions.SessionState{Email: fmt.Sprintf("user%d@example.com", i), AccessToken: fmt.Sprintf("access-%d", i), RefreshToken: fmt.Sprintf("refresh-%d", i), Groups: []string{fmt.Sprintf("g%d", i)}}
+		if i == 0 && p.P["big"] > 0 {
+			for k := 0; k < p.P["big"]; k++ {
+				orig.Groups = append(orig.Groups, fmt.Sprintf("team-%04d-of-the-organisation@example.com", k))
+			}
+			v.cover("C02|sched|long-group-list|%d", p.P["big"])
+		}
 		val, err := sessions.MarshalSession(&orig, ciphers[ci])
 		if err != nil {
 			res.HarnessErr = err.Error()
@@ -71,7 +80,7 @@ func runC02(p *Plan, res *world.Result) {
 					v.violate("C02.A1-round-trip", fmt.Sprintf("a genuine value was rejected under its own secret when opened alongside other opens: %v", err), "kind", "concurrent-open", "facet", "rejected")
 					continue
 				}
-				if got.Email != sv.orig.Email || got.AccessToken != sv.orig.AccessToken || got.RefreshToken != sv.orig.RefreshToken {
+				if got.Email != sv.orig.Email || got.AccessToken != sv.orig.AccessToken || got.RefreshToken != sv.orig.RefreshToken || strings.Join(got.Groups, ",") != strings.Join(sv.orig.Groups, ",") {
 					v.violate("C02.A1-round-trip", fmt.Sprintf("opening a genuine value returned other data: sealed for %s, opened to %s", sv.orig.Email, got.Email), "kind", "concurrent-open", "facet", "other-data")
 				}
 			}
